@@ -1019,6 +1019,49 @@ theorem icpWithB_le_alone (align : Pairs ℝ → SE3 ℝ) (hal : AlignOk align) 
   exact icp_result_more_passes_le align hal nn p.1.2.1 p.1.2.2 hnn p.1.1 hinit m' n
 
 
+/-! ## pass 11: the mixed-batch recovery oracle itself; the cost clause in the property's measure -/
+
+/-- **Mixed batches — "recovered alone ⇒ recovered in the batch"** (oracle (iii) of the harness's mixed-batch stream, as a
+theorem): for every batch-level stepper there is one common pass count `m ≤ fuel`, and every item that is recovered when
+registered **alone with some `m' ≤ m` passes** (its `temporal` cloud then lies exactly on `X*·src ⊆ target`) is returned
+exactly recovered by the batched call, whatever the other items are.  So an item can be lost in a batch only if the common
+loop stops *before* the item's own pass count — a batch-global stop criterion (class 51). -/
+theorem icpWithB_recovered_if_alone (align : Pairs ℝ → SE3 ℝ) (hal : AlignOk align) (nn : Cloud ℝ → Vec3 ℝ → Nat)
+    (cont : List (List ℝ) → Bool) (fuel : Nat) (items : List (Option (SE3 ℝ) × Cloud ℝ × Cloud ℝ)) :
+    ∃ m ≤ fuel, ∀ p ∈ items.zip (icpWithB align nn cont fuel items), NNOk nn p.1.2.2 →
+      ∀ (m' : Nat) (Xs : SE3 ℝ), Xs.q.normSq = 1 → m' ≤ m →
+        icpIter align nn p.1.2.2 m' (icpStart p.1.1 p.1.2.1) = p.1.2.1.map (SE3Act Xs) →
+        (∀ s ∈ p.1.2.1, SE3Act Xs s ∈ p.1.2.2) →
+        p.1.2.1.map (SE3Act p.2) = p.1.2.1.map (SE3Act Xs) := by
+  obtain ⟨m, hmf, he⟩ := icpWithB_items align nn cont fuel items
+  refine ⟨m, hmf, ?_⟩
+  rw [he]
+  intro p hp hnn m' Xs hXs hm' hrec hin
+  have hz : ∀ (l : List (Option (SE3 ℝ) × Cloud ℝ × Cloud ℝ)) (f : _ → SE3 ℝ) (y : _ × SE3 ℝ), y ∈ l.zip (l.map f) → y.1 ∈ l ∧ y.2 = f y.1 := by
+    intro l f; induction l with
+    | nil => intro y hy; simp at hy
+    | cons a l ih =>
+      intro y hy
+      simp only [List.map_cons, List.zip_cons_cons, List.mem_cons] at hy
+      rcases hy with rfl | hy
+      · exact ⟨List.mem_cons_self .., rfl⟩
+      · exact ⟨List.mem_cons_of_mem _ (ih y hy).1, (ih y hy).2⟩
+  obtain ⟨_, hv⟩ := hz items _ p hp
+  rw [hv]
+  obtain ⟨n, rfl⟩ : ∃ n, m = m' + n := ⟨m - m', by omega⟩
+  exact icp_recovered_stays align hal nn p.1.2.1 p.1.2.2 hnn Xs hXs p.1.1 m' hrec hin n
+
+/-- `icp_result_more_passes_le` in the property's own measure, the **mean** squared closest-point distance -/
+theorem icp_result_more_passes_mscd_le (align : Pairs ℝ → SE3 ℝ) (hal : AlignOk align) (nn : Cloud ℝ → Vec3 ℝ → Nat)
+    (src tgt : Cloud ℝ) (hnn : NNOk nn tgt) (init : Option (SE3 ℝ)) (hinit : ∀ T, init = some T → T.q.normSq = 1)
+    (m n : Nat) :
+    mscd nn tgt (src.map (SE3Act (icp align nn init (m + n) src tgt))) ≤
+      mscd nn tgt (src.map (SE3Act (icp align nn init m src tgt))) := by
+  have h := icp_result_more_passes_le align hal nn src tgt hnn init hinit m n
+  simp only [mscd, List.length_map, k_real, Nat.cast_one]
+  exact mul_le_mul_of_nonneg_right h (by positivity)
+
+
 /-! ## Non-vacuity: the hypotheses are satisfiable by non-trivial values -/
 
 /-- a concrete reflection-prone problem: `M = diag(2, 2, -1)` has the SVD `1 · diag(2,2,1) · diag(1,1,-1)` with
@@ -1118,5 +1161,28 @@ example (a b : Cloud ℝ × Cloud ℝ) (ha : a.2 ≠ []) (hb : b.2 ≠ []) (cont
   rcases hit with rfl | rfl
   · exact ⟨nnFirst_ok _ ha, by intro T h; cases h⟩
   · exact ⟨nnFirst_ok _ hb, by intro T h; cases h⟩
+
+/-- pass 11: `icpWithB_recovered_if_alone` is not vacuous: a batch of two problems "register a non-empty cloud onto itself" with
+the concrete aligner and kernel; each item is recovered alone with 0 passes (`X* = 1`), hence by every batched call -/
+example (a b : Cloud ℝ) (ha : a ≠ []) (hb : b ≠ []) (cont : List (List ℝ) → Bool) (fuel : Nat) :
+    ∀ p ∈ [((none : Option (SE3 ℝ)), a, a), ((none : Option (SE3 ℝ)), b, b)].zip (icpWithB idealAlign nnFirst cont fuel [((none : Option (SE3 ℝ)), a, a), ((none : Option (SE3 ℝ)), b, b)]),
+      p.1.2.1.map (SE3Act p.2) = p.1.2.1.map (SE3Act SE3one) := by
+  obtain ⟨m, _, h⟩ := icpWithB_recovered_if_alone idealAlign idealAlign_ok nnFirst cont fuel [((none : Option (SE3 ℝ)), a, a), ((none : Option (SE3 ℝ)), b, b)]
+  have h1 : (SE3one : SE3 ℝ).q.normSq = 1 := by simp [SE3one, Quat.one, Quat.normSq]
+  have hid : ∀ c : Cloud ℝ, c.map (SE3Act (SE3one : SE3 ℝ)) = c := by
+    intro c; conv_rhs => rw [← List.map_id c]
+    apply List.map_congr_left; intro s _; exact SE3Act_one s
+  intro p hp
+  have hmem : p.1 = ((none : Option (SE3 ℝ)), a, a) ∨ p.1 = ((none : Option (SE3 ℝ)), b, b) := by
+    simp only [icpWithB, List.map_cons, List.map_nil] at hp
+    have := List.of_mem_zip hp
+    simpa using this.1
+  have hnn : NNOk nnFirst p.1.2.2 := by
+    rcases hmem with e | e <;> rw [e]
+    · exact nnFirst_ok _ ha
+    · exact nnFirst_ok _ hb
+  refine h p hp hnn 0 SE3one h1 (Nat.zero_le _) ?_ ?_
+  · rcases hmem with e | e <;> rw [e] <;> simp [icpIter, icpStart, hid]
+  · rcases hmem with e | e <;> rw [e] <;> intro s hs <;> rw [SE3Act_one] <;> exact hs
 
 end PP.C17
